@@ -200,6 +200,7 @@ struct World
     std::vector<FrameRec> delivered[3];                         // in order
     StreamCfg pending[2];
     StreamCfg applied[2]; // what the last acquire_configure was given
+    size_t ring_sink[2] = { 0, 0 }, ring_filter[2] = { 0, 0 };
     std::deque<AcqRec> acqs;
     int acq_id = 0;
     bool running_expected = false;
@@ -671,6 +672,18 @@ judge_stream(const AcqRec& a, int s)
                        a.start_ok;
     const char* P = c.avg > 1 ? "C10" : "C04";
     char id[64];
+    {
+        // did this acquisition alone write more than a ring holds?
+        size_t in_b = sizeof(struct VideoFrame) +
+                      align8((size_t)c.w * c.h * bytes_per_px(c.type));
+        size_t out_b = c.avg > 1 ? sizeof(struct VideoFrame) +
+                                     align8((size_t)c.w * c.h * 4)
+                                 : in_b;
+        if (c.avg > 1 && G.size() * in_b > W->ring_filter[s])
+            probe("reach.wraps");
+        if (F.size() * out_b > W->ring_sink[s])
+            probe("reach.wraps");
+    }
     if (c.avg > 1) {
         // ---- averaging: one f32 frame per complete window of k inputs
         int k = c.avg;
@@ -1684,6 +1697,10 @@ struct RtHarness : Harness
             int64_t v = plan.geti(k, 0);
             return (size_t)std::max(v, minring);
         };
+        w->ring_sink[0] = cap("ring.sink0");
+        w->ring_filter[0] = cap("ring.filter0");
+        w->ring_sink[1] = cap("ring.sink1");
+        w->ring_filter[1] = cap("ring.filter1");
         simseam::set_channel_caps({ cap("ring.sink0"), cap("ring.filter0"),
                                     cap("ring.sink1"), cap("ring.filter1") });
         w->rt = acquire_init(reporter);
